@@ -62,6 +62,8 @@ enum : int {
     EV_SIGNAL = 8,     // a = number of waiters, b = 0 signal / 1 broadcast
     EV_CLOCKJUMP = 9,  // a = delta ms
     EV_SLEEP = 10,     // a = ms
+    EV_FUTEX_WAIT = 11,  // thread blocks in futex(FUTEX_WAIT) (std::atomic::wait, semaphores, latches ...); a = tag
+    EV_FUTEX_WAKE = 12,  // a = number of threads woken
 };
 struct Event {
     uint32_t seq;
@@ -70,7 +72,7 @@ struct Event {
     int32_t a, b;
 };
 
-enum ThreadState { T_RUNNABLE, T_BLK_MUTEX, T_BLK_COND, T_BLK_JOIN, T_BLK_PRED, T_SLEEPING, T_DONE };
+enum ThreadState { T_RUNNABLE, T_BLK_MUTEX, T_BLK_COND, T_BLK_JOIN, T_BLK_PRED, T_SLEEPING, T_DONE, T_BLK_FUTEX };
 struct ThreadInfo {
     int id;
     ThreadState state;
